@@ -34,6 +34,9 @@ RULE = ("predicates: for every predicate, size 1..6 and field (real / complex) t
         "of size 2^-3..2^-5 * (1+scale); the Lean decider must certify yes resp. no (violation >= 1e-3*(1+scale)), otherwise the input is dropped "
         "and counted as undetermined; toqito receives the correctly rounded float matrix; each verdict is re-asked under the "
         "property-preserving transformations (permutation / phase / rational-unitary similarity, transpose, conjugate, scaling). "
+        "every definiteness verdict (PSD / PD / density / doubly non-negative), every linear-independence verdict and every commutant dimension of the "
+        "exact model is additionally confirmed on every run by a certificate (L D L^H factor / negative-direction vector / left inverse / null vector / "
+        "rank factorisation) computed independently in Python with Fractions and accepted by a checker proved sound in Lean. "
         "helpers: Gaussian-integer operands (exact equality with the Lean mirror), relation residuals for float outputs. "
         "non-trivial = size >= 2 and the matrix is neither diagonal nor a multiple of the identity (predicates), "
         "at least two operands / rectangular operand with both sides > 1 (helpers); distinct = hash of the exact input")
@@ -41,6 +44,7 @@ ASSUMPTIONS = [
     "rounding an exact rational matrix to float64 moves every entry by at most 2^-53 relative, far below the margin 1e-3*(1+scale) and the library tolerances",
     "float64 arithmetic on the small (Gaussian) integer operands of the helper operations is exact (entries < 2^8, at most 3 factors, at most 36 terms)",
     "numpy.linalg.svd / eigh / cholesky / scipy null_space are accurate to 1e-8*scale on the well-conditioned small inputs generated",
+    "the elimination-based parts of the exact model that carry no certificate (spark, rank inside the UPB search, exact determinants of the minors of is_totally_positive, exact inverse of the signature) are executable Lean code without a correctness theorem; they are cross-validated by construction of the inputs and by agreement with toqito",
     "mutually unbiased bases are generated exactly only in dimensions 2, 4, 6 (entries in Q[i] up to a square-root normalisation); other dimensions only get violating inputs",
 ]
 
@@ -261,6 +265,45 @@ def q_rank(A: QM):
                 M[i] = [x - t * y for x, y in zip(M[i], M[rk])]
         rk += 1
     return rk
+
+
+def rref_data(S: QM):
+    """exact Gauss-Jordan with row-operation tracking: returns (E, pivots, N) with E S = RREF(S), E invertible,
+    N a basis of the null space (one column per free column of S, identity on the free coordinates)"""
+    R, Cc = S.shape
+    M = [row + [C(1 if i == j else 0) for j in range(R)] for i, row in enumerate(q_rows(S))]
+    piv = []
+    rk = 0
+    for col in range(Cc):
+        if rk >= R:
+            break
+        p = next((i for i in range(rk, R) if M[i][col].nz()), None)
+        if p is None:
+            continue
+        M[rk], M[p] = M[p], M[rk]
+        iv = M[rk][col].inv()
+        M[rk] = [x * iv for x in M[rk]]
+        for i in range(R):
+            if i != rk and M[i][col].nz():
+                t = M[i][col]
+                M[i] = [x - t * y for x, y in zip(M[i], M[rk])]
+        piv.append(col)
+        rk += 1
+    E = q_from_rows([row[Cc:] for row in M]) if R else QM.zeros(0, 0)
+    free = [c for c in range(Cc) if c not in piv]
+    N = [[C(0) for _ in free] for _ in range(Cc)]
+    for fi, f in enumerate(free):
+        N[f][fi] = C(1)
+        for ri, pc in enumerate(piv):
+            N[pc][fi] = C(0) - M[ri][f]
+    return E, piv, free, (q_from_rows(N) if free and Cc else QM.zeros(Cc, 0))
+
+
+def sel_matrix(rows, cols, ones):
+    Q = QM.zeros(rows, cols)
+    for (i, j) in ones:
+        Q.re[i, j] = Fraction(1)
+    return Q
 
 
 # ------------------------------------------------------------------------------------------------
@@ -1217,6 +1260,17 @@ def ask_set(ctx, name, V, label, kind, expect=None, transformed=None):
             raise InfraError(f"generator for {name} ({label}) produced a set the Lean decider calls {lv}: {desc}")
         if not transformed:
             return None
+    if name == "linearly_independent":
+        E, piv, free, N = rref_data(V)
+        if lv == "yes":
+            W = QM(E.re[: V.shape[1], :], E.im[: V.shape[1], :])
+            ok = ctx.lean().ask("c16_linindep_cert", {"V": V.to_json(), "W": W.to_json()}).get("ok")
+        else:
+            c = QM(N.re[:, :1], N.im[:, :1]) if N.shape[1] else QM.zeros(V.shape[1], 1)
+            ok = ctx.lean().ask("c16_lindep_cert", {"V": V.to_json(), "c": c.to_json()}).get("ok")
+        ctx.count(f"cert/linear_{'in' if lv == 'yes' else ''}dependence")
+        if not ok:
+            raise InfraError(f"linear independence verdict {lv} of the exact decider is not confirmed by the verified certificate checker: {desc}")
     vl, form = _vec_list(ctx.rng, V)
     desc["form"] = form
     try:
@@ -1929,6 +1983,32 @@ def check_commutant(ctx, gens, label):
     arg = arrs[0] if len(arrs) == 1 and ctx.rng.integers(2) else list(arrs)
     out = _safe(commutant, arg)
     mo = ctx.lean().ask("c16_commutant_dim", {"dim": n, "gens": [g.to_json() for g in gens]})
+    # verified certificate of the exact dimension (rank / nullity of the stacked system)
+    I = QM.eye(n)
+
+    def kron_q(A, B):
+        ra, ca = A.shape
+        rb, cb = B.shape
+        out = QM.zeros(ra * rb, ca * cb)
+        for i in range(ra):
+            for j in range(ca):
+                if A.re[i, j] != 0 or A.im[i, j] != 0:
+                    blk = B.scale(A.re[i, j], A.im[i, j])
+                    out.re[i * rb:(i + 1) * rb, j * cb:(j + 1) * cb] = blk.re
+                    out.im[i * rb:(i + 1) * rb, j * cb:(j + 1) * cb] = blk.im
+        return out
+    blocks = [kron_q(g, I) - kron_q(I, g.T) for g in gens]
+    S = QM(np.concatenate([b.re for b in blocks], axis=0), np.concatenate([b.im for b in blocks], axis=0))
+    E, piv, free, N = rref_data(S)
+    r, k = len(piv), len(free)
+    P = QM(E.re[:r, :], E.im[:r, :]) if r else QM.zeros(0, S.shape[0])
+    Q = sel_matrix(n * n, r, [(pc, i) for i, pc in enumerate(piv)])
+    Msel = sel_matrix(k, n * n, [(i, f) for i, f in enumerate(free)])
+    cert = ctx.lean().ask("c16_commutant_cert", {"dim": n, "gens": [g.to_json() for g in gens], "P": P.to_json(), "Q": Q.to_json(),
+                                                 "N": N.to_json(), "M": Msel.to_json()})
+    ctx.count("cert/commutant_dimension")
+    if not cert.get("ok") or cert.get("nullity") != mo["dim"]:
+        raise InfraError(f"commutant dimension {mo['dim']} of the exact model is not confirmed by the verified rank certificate ({cert})")
     desc = {"op": "commutant", "gens": [g.key() for g in gens], "label": label, "single_array_form": not isinstance(arg, list)}
     ctx.case(desc, n >= 2 and any(not g.is_trivial() for g in gens), f"ops/commutant/dim={mo['dim']}")
     if out[0] != "ok":
@@ -2019,7 +2099,7 @@ def run(ctx, model_ok=True):
     rng = ctx.rng
     quick = ctx.tier == "quick"
     corpus(ctx)
-    reps = 2 if quick else 6
+    reps = 2 if quick else 24
     # --- predicates on one (or two) matrices
     for name in [k for k, v in PREDS.items() if v["gen"] is not None]:
         for n in range(1, 7):
